@@ -22,6 +22,8 @@ def run(ctx, sess):
     ctx.rule('C17.2', 'every content tag is re-issued through the matching writer call; payload fields are passed to the parameter of the same name; ids and positions come from the chunk that was read')
     ctx.rule('C17.3', 'the copy-side parsers of SOURCE_DEF and SIGNAL_DEF use the writer\'s field sequence')
     ctx.rule('C17.4', 'closed result: every return after the files were opened passes jls_wr_close and jls_raw_close; unclosed originals are accepted')
+    ctx.rule('C17.6', 'no chunk is skipped for lack of buffer: the copy buffer covers the on-disk payload on every path to the payload read')
+    ctx.rule('C17.7', 'a content chunk is left out of the copy only when it is one the writer creates by itself: source/signal id 0, user data with storage type INVALID')
     ctx.rule('C17.5', 'omitted blocks: since the writer can record a level-0 block as omitted (index entry 0), the copy must consume the level-1 INDEX/SUMMARY chunks to reproduce it')
     sw = None
     for b in f.blocks.values():
@@ -150,3 +152,60 @@ def run(ctx, sess):
         ok = (not can_omit) or bool(own)
         ctx.ob('C17.5', ok, f.name, 'case %s consumes the chunk' % tag, '%s:%d' % (f.file, blk.line if blk else 0),
                'handled' if ok else 'the case is empty: level-0 blocks the writer omitted (constant <= 8-bit blocks, jls_wr_fsr_omit_data) exist only as level-1 summaries, so the copy has a gap (fill values) where the original reads back data')
+
+    # ---- C17.6 (grow-to-fit at the copy's read site, shared engine with C10.8)
+    from .c10b import r8
+
+    class Sub:
+        def __init__(self, ctx):
+            self.ctx = ctx
+
+        def __getattr__(self, k):
+            return getattr(self.ctx, k)
+
+        def ob(self, rid, ok, fn, construct, where='', detail='', witness=None):
+            if fn == 'jls_copy':
+                return self.ctx.ob('C17.6', ok, fn, construct, where, detail, witness)
+            return ok
+
+        def floor(self, *a):
+            pass
+
+        def note(self, *a):
+            pass
+    r8(Sub(ctx), P, rule='C17.6')
+    # ---- C17.7 guards of the re-issue calls
+    from ..graph import control_deps_transitive, cond_facts, dominators
+    INV = P.enum_consts['JLS_STORAGE_TYPE_INVALID']
+    dom = dominators(f)
+    for tag, (callee, rec) in want.items():
+        blk = cases.get(tags[tag])
+        if blk is None:
+            continue
+        for c in [ev for ev in ser.case_region(f, 'tag', tags[tag]) if ev.k == 'call' and ev.callee == callee]:
+            bad = []
+            for (bid, label) in control_deps_transitive(f, c.block.id):
+                if bid not in dom or blk.id not in dom[bid]:
+                    continue          # condition outside this case
+                cnd = f.blocks[bid].cond
+                e = strip_casts(cnd) if cnd else None
+                if e is None:
+                    continue
+                if e.get('op') == 'ref' and e.get('name') in ('rc', 'rc__'):
+                    continue
+                ok = False
+                if e.get('op') == 'bin' and e['o'] in ('!=', '=='):
+                    l, r_ = strip_casts(e['k'][0]), strip_casts(e['k'][1])
+                    cv = const_of(r_) if const_of(r_) is not None else const_of(l)
+                    other = l if const_of(r_) is not None else r_
+                    if tag == 'JLS_TAG_USER_DATA':
+                        # the tested value is the storage type: derived from chunk_meta >> 12
+                        is_st = df.derives(f, other, lambda nd: nd.get('op') == 'bin' and nd['o'] == '>>' and const_of(nd['k'][1]) == 12, f.blocks[bid], len(f.blocks[bid].events))
+                        ok = is_st and cv == INV
+                    else:
+                        fld = 'source_id' if 'SOURCE' in tag else 'signal_id'
+                        ok = any(nd.get('op') == 'member' and nd.get('field') == fld for nd in walk(other)) and cv == 0
+                if not ok:
+                    bad.append(show(e)[:60])
+            ctx.ob('C17.7', not bad, f.name, '%s is skipped only for the writer\'s own reserved item' % tag, c.where(),
+                   'guards: reserved item only' if not bad else 'the re-issue is also skipped under %s: such items silently disappear from the copy' % bad)
